@@ -62,7 +62,7 @@ impl Op {
 
 /// Statistics alphabet: (termination estimate, speed, improvement ratio).
 fn stats(idx: usize, generation: usize) -> HeuristicStatistics {
-    let table: [(f64, u8, f64); 6] = [(0., 0, 0.), (0.5, 1, 0.2), (0.5, 2, 0.), (0.95, 0, 0.), (0.95, 2, 0.2), (0.2, 1, 0.)];
+    let table: [(f64, u8, f64); 7] = [(0., 0, 0.), (0.5, 1, 0.2), (0.5, 2, 0.), (0.95, 0, 0.), (0.95, 2, 0.2), (0.2, 1, 0.), (0.5, 3, 0.)];
     let (estimate, speed, ratio) = table[idx % table.len()];
     let mut s = HeuristicStatistics::default();
     s.generation = generation;
@@ -72,11 +72,13 @@ fn stats(idx: usize, generation: usize) -> HeuristicStatistics {
     s.speed = match speed {
         0 => HeuristicSpeed::Unknown,
         1 => HeuristicSpeed::Moderate { average: 100., median: Some(10) },
-        _ => HeuristicSpeed::Slow { ratio: 0.25, average: 1., median: Some(1000) },
+        2 => HeuristicSpeed::Slow { ratio: 0.25, average: 1., median: Some(1000) },
+        // very slow: selection size x ratio rounds to zero
+        _ => HeuristicSpeed::Slow { ratio: 0.1, average: 1., median: Some(5000) },
     };
     s
 }
-const STATS: usize = 6;
+const STATS: usize = 7;
 
 #[derive(Clone, Debug)]
 enum Kind {
